@@ -55,7 +55,12 @@ func (p *PauseController) UnmarshalJSON(data []byte) error {
 		return err
 	}
 
-	switch p.State {
+	// Re-apply the saved state starting from a running controller, so that
+	// entering the paused state creates the channel its waiters block on.
+	state := p.State
+	p.State = PauseStateRunning
+
+	switch state {
 	case PauseStateRunning:
 		p.Resume()
 	case PauseStatePaused:
